@@ -624,6 +624,20 @@ crate::harnesses! { REG;
         core::mem::forget((res, res2));
         assert!(ok);
     }
+    /// thorough required timeout=3000 | find_naf on two-limb values with a saturated low limb 2^64 - s (s < 16) and a 6-bit high limb: the +1 of a negative digit must carry into the high limb
+    #[unwind(74)]
+    fn c15_naf_limb_carry_n2() {
+        let h: u64 = any();
+        assume(h < 64);
+        let s: u64 = any();
+        assume(s >= 1 && s < 16);
+        let lo = 0u64.wrapping_sub(s);
+        let res = find_naf(&[lo, h]);
+        crate::cover!(h == 63 && s == 1);
+        let ok = naf_digits_ok(&res, ((h as u128) << 64) | lo as u128, false);
+        core::mem::forget(res);
+        assert!(ok);
+    }
     /// thorough required | find_wnaf(w), w in 2..=4, values with saturated low limb and a 6-bit high limb (carry across the limb boundary), BigInt<2>
     #[unwind(74)]
     fn c15_wnaf_limb_carry_n2() {
